@@ -286,10 +286,10 @@ pub enum Op {
     Yield,
     Sleep(u16),
     /// timers (C12): `derived` uses the DerivedActorRef variant
-    SendAfter { to: u8, ms: u16, derived: bool },
-    SendInterval { to: u8, ms: u16, derived: bool },
-    ExitAfter { to: u8, ms: u16 },
-    KillAfter { to: u8, ms: u16 },
+    SendAfter { to: u8, ms: u16, derived: bool, #[serde(default)] us: u16 },
+    SendInterval { to: u8, ms: u16, derived: bool, #[serde(default)] us: u16 },
+    ExitAfter { to: u8, ms: u16, #[serde(default)] us: u16 },
+    KillAfter { to: u8, ms: u16, #[serde(default)] us: u16 },
     AbortTimer(u8),
     AwaitTimer(u8),
 }
@@ -1156,19 +1156,19 @@ pub async fn exec_op(w: &Arc<World>, c: usize, i: usize, op: &Op) -> Res {
             cell!(a).drain_children();
             Res::Unit
         }
-        Op::SendAfter { to, ms, derived } => {
+        Op::SendAfter { to, ms, derived, us } => {
             let cell = cell!(to);
             let tid = w.timers.lock().unwrap().len();
             let sender = TIMER_SENDER_BASE + tid as u16;
             if *derived {
                 let d: ractor::DerivedActorRef<DMsg> = cell.get_derived();
-                let h = d.send_after(Duration::from_millis(*ms as u64), move || {
+                let h = d.send_after(Duration::from_micros(*ms as u64 * 1000 + *us as u64), move || {
                     log(Ev::Note(format!("fire {tid} 0")));
                     DMsg { sender, seq: 0 }
                 });
                 w.timers.lock().unwrap().push(TimerH::AfterD(h));
             } else {
-                let h = cell.send_after(Duration::from_millis(*ms as u64), move || {
+                let h = cell.send_after(Duration::from_micros(*ms as u64 * 1000 + *us as u64), move || {
                     log(Ev::Note(format!("fire {tid} 0")));
                     Msg::Num { sender, seq: 0 }
                 });
@@ -1176,20 +1176,20 @@ pub async fn exec_op(w: &Arc<World>, c: usize, i: usize, op: &Op) -> Res {
             }
             Res::Found(tid as i64)
         }
-        Op::SendInterval { to, ms, derived } => {
+        Op::SendInterval { to, ms, derived, us } => {
             let cell = cell!(to);
             let tid = w.timers.lock().unwrap().len();
             let sender = TIMER_SENDER_BASE + tid as u16;
             let n = Arc::new(std::sync::atomic::AtomicU32::new(0));
             let h = if *derived {
                 let d: ractor::DerivedActorRef<DMsg> = cell.get_derived();
-                d.send_interval(Duration::from_millis((*ms).max(1) as u64), move || {
+                d.send_interval(Duration::from_micros((*ms).max(1) as u64 * 1000 + *us as u64), move || {
                     let k = n.fetch_add(1, Ordering::Relaxed) + 1;
                     log(Ev::Note(format!("fire {tid} {k}")));
                     DMsg { sender, seq: k }
                 })
             } else {
-                cell.send_interval(Duration::from_millis((*ms).max(1) as u64), move || {
+                cell.send_interval(Duration::from_micros((*ms).max(1) as u64 * 1000 + *us as u64), move || {
                     let k = n.fetch_add(1, Ordering::Relaxed) + 1;
                     log(Ev::Note(format!("fire {tid} {k}")));
                     Msg::Num { sender, seq: k }
@@ -1198,17 +1198,17 @@ pub async fn exec_op(w: &Arc<World>, c: usize, i: usize, op: &Op) -> Res {
             w.timers.lock().unwrap().push(TimerH::Unit(h));
             Res::Found(tid as i64)
         }
-        Op::ExitAfter { to, ms } => {
+        Op::ExitAfter { to, ms, us } => {
             let cell = cell!(to);
             let tid = w.timers.lock().unwrap().len();
-            let h = cell.exit_after(Duration::from_millis(*ms as u64));
+            let h = cell.exit_after(Duration::from_micros(*ms as u64 * 1000 + *us as u64));
             w.timers.lock().unwrap().push(TimerH::Unit(h));
             Res::Found(tid as i64)
         }
-        Op::KillAfter { to, ms } => {
+        Op::KillAfter { to, ms, us } => {
             let cell = cell!(to);
             let tid = w.timers.lock().unwrap().len();
-            let h = cell.kill_after(Duration::from_millis(*ms as u64));
+            let h = cell.kill_after(Duration::from_micros(*ms as u64 * 1000 + *us as u64));
             w.timers.lock().unwrap().push(TimerH::Unit(h));
             Res::Found(tid as i64)
         }
